@@ -88,6 +88,10 @@ def _subst_types(o, m):
 
 def callee_of(crate, t):
     f = t["call"]
+    if f.get("trait") and not (f.get("resolved") or {}).get("local") and hasattr(crate, "resolve_trait_call"):
+        late = crate.resolve_trait_call(f)
+        if late is not None:
+            f["resolved"] = late
     res = f.get("resolved") or {}
     cid = res.get("id") if res.get("local") else (f.get("id") if f.get("local") else None)
     if cid is None:
@@ -301,50 +305,27 @@ def thread_known(d, max_clones=80):
         changed = False
         for S in range(len(d["blocks"])):
             blkS = d["blocks"][S]
-            if blkS.get("cleanup") or "switch" not in blkS["t"] or len(blkS["s"]) > 6 or blkS.get("threaded_clone"):
+            if blkS.get("cleanup") or "switch" not in blkS["t"] or len(blkS["s"]) > 8 or blkS.get("threaded_clone"):
                 continue
-            ok = True
-            for st in blkS["s"]:
-                if "d" not in st or not isinstance(st["d"], int):
-                    ok = False
-                    break
-                r = st["r"]
-                if not (set(r) <= {"use"} or r.get("un") == "Not" or "discr" in r):
-                    ok = False
-                    break
-            if not ok:
-                continue
-            # the local the block inspects first
-            x = None
-            if blkS["s"]:
-                r0 = blkS["s"][0]["r"]
-                if set(r0) <= {"use"}:
-                    p_ = r0["use"].get("mv", r0["use"].get("cp")) if isinstance(r0["use"], dict) else None
-                    x = p_ if isinstance(p_, int) else None
-                elif "discr" in r0 and isinstance(r0["discr"], int):
-                    x = r0["discr"]
-                elif r0.get("un") == "Not":
-                    p_ = r0["a"].get("mv", r0["a"].get("cp")) if isinstance(r0["a"], dict) else None
-                    x = p_ if isinstance(p_, int) else None
-            else:
-                sw_ = blkS["t"]["switch"]
-                p_ = sw_.get("mv", sw_.get("cp")) if isinstance(sw_, dict) else None
-                x = p_ if isinstance(p_, int) else None
-            if x is None:
+            if any("d" not in st or not isinstance(st["d"], int) for st in blkS["s"]):
+                continue        # (a store through a projection is not duplicated)
+            sw_ = blkS["t"]["switch"]
+            swl = sw_.get("mv", sw_.get("cp")) if isinstance(sw_, dict) else None
+            if not isinstance(swl, int):
                 continue
             for P in range(len(d["blocks"])):
                 blkP = d["blocks"][P]
                 if P == S or blkP.get("cleanup") or blkP["t"].get("goto") != S or not blkP["s"]:
                     continue
-                js = [j for j, st in enumerate(blkP["s"]) if st.get("d") == x]
-                if not js:
+                last = blkP["s"][-1]
+                x = last.get("d")
+                if not isinstance(x, int):
                     continue
-                j = js[-1]
-                if any(_mentions(st2, x) for st2 in blkP["s"][j + 1:]):
-                    continue
-                known = _known_of(blkP["s"][j]["r"])
+                known = _known_of(last["r"])
                 if known is None:
                     continue
+                # propagate the known value through the copies / discriminant reads / negations of S; every other statement
+                # of S is an ordinary assignment that the duplicate repeats unchanged
                 vals = {x: known}
                 for st in blkS["s"]:
                     r = st["r"]
@@ -363,9 +344,7 @@ def thread_known(d, max_clones=80):
                         vals[st["d"]] = sv
                     else:
                         vals.pop(st["d"], None)
-                sw_ = blkS["t"]["switch"]
-                p_ = sw_.get("mv", sw_.get("cp")) if isinstance(sw_, dict) else None
-                folded = vals.get(p_) if isinstance(p_, int) else None
+                folded = vals.get(swl)
                 if not isinstance(folded, int):
                     continue
                 tg = dict((v, b2) for v, b2 in blkS["t"]["targets"]).get(folded, blkS["t"]["otherwise"])
